@@ -16,10 +16,12 @@ class Page(html.parser.HTMLParser):
         self.ids = []
         self.hrefs = []
         self.tags = []
+        self.attrs = []          # (tag, attribute name) of every attribute of every start tag
         self.skip = 0
 
     def handle_starttag(self, tag, attrs):
         self.tags.append(tag)
+        self.attrs.extend((tag, k) for k, _ in attrs)
         d = dict(attrs)
         if 'id' in d:
             self.ids.append(d['id'])
@@ -87,7 +89,7 @@ def word(prefix='w'):
     return '%sx%dz' % (prefix, _w[0])
 
 
-def gen_doc(rng, leaves=None, depth=2, labels=True, bad_titles=False):
+def gen_doc(rng, leaves=None, depth=2, labels=True, bad_titles=False, leaf_titles=False):
     """Random sectioned document; returns (source, list of marker words in order, list of labels, refs)."""
     words, labs, refs = [], [], []
     names = ['section', 'subsection', 'subsubsection']
@@ -107,7 +109,10 @@ def gen_doc(rng, leaves=None, depth=2, labels=True, bad_titles=False):
             t = word('t')
             star = '*' if rng.random() < 0.15 else ''
             # titles may carry characters that are forbidden in file names
-            out += '\\%s%s{%s%s}' % (names[level], star, t, rng.choice(['', '', ': x', ' a/b', ' q?']) if bad_titles else '')
+            extra = rng.choice(['', '', ': x', ' a/b', ' q?']) if bad_titles else ''
+            if leaf_titles and leaves and rng.random() < 0.7:
+                extra += ' ' + rng.choice(leaves)
+            out += '\\%s%s{%s%s}' % (names[level], star, t, extra)
             words.append(t)
             if labels and rng.random() < 0.7:
                 l = 'lab%d' % len(labs)
@@ -122,6 +127,8 @@ def gen_doc(rng, leaves=None, depth=2, labels=True, bad_titles=False):
                 out += '\\begin{itemize}\\item ' + text() + '\\item ' + text() + '\\end{itemize}'
             if rng.random() < 0.2:
                 out += 'x\\footnote{' + text() + '} '
+            if leaf_titles and leaves and rng.random() < 0.3:
+                out += '\\begin{table}\\begin{tabular}{ll}' + text() + ' & ' + text() + '\\end{tabular}\\caption{' + text() + '}\\end{table} '
             if level + 1 < min(depth + 1, len(names)) and rng.random() < 0.6:
                 out += sec(level + 1)
         return out
